@@ -843,8 +843,8 @@ fn crash_obs(run: &CrashRun, n: i64, with_open: bool) -> (Loaded, Option<Opened>
 fn crash_points(rng: &mut Rng, run: &CrashRun, thorough: bool) -> Vec<(i64, bool)> {
     let len = run.file.len() as i64;
     let last = if run.inplace { len } else { len + 1 };
-    let mut opens: Vec<i64> = vec![-1, 0, 1, 16, 127, 128, 129, len / 2, len - 1, len, last];
-    let extra = if thorough { 40 } else { 6 };
+    let mut opens: Vec<i64> = if thorough { vec![-1, 0, 1, 16, 127, 128, 129, len / 2, len - 1, len, last] } else { vec![-1, 0, 127, 128, len - 1, len, last] };
+    let extra = if thorough { 30 } else { 3 };
     for _ in 0..extra { opens.push(rng.below(len as u64 + 1) as i64); }
     let mut v = vec![(-1, true)];
     for n in 0..=last { v.push((n, opens.contains(&n))); }
